@@ -14,6 +14,8 @@
 // files of their own and equal or different realms behind ONE HTTPProxy, one route per
 // scheme): credentials accepted on the route of one scheme are presented on the routes
 // of the others (class http/scheme-set, case type CSchemes, Model/BasicSchemes.v).
+// Also: whole requests - every method, arbitrary header maps - through the two gates
+// (gate.go, class http/any-request, case type CGate, Model/GateRequest.v).
 package main
 
 import (
@@ -59,7 +61,7 @@ import (
 )
 
 const preamble = `From Coq Require Import List NArith String.
-From Fabio Require Import Lib.Outcome Lib.Bytes Lib.Pack Model.Access Model.BasicReload Model.BasicSchemes Check.C12.
+From Fabio Require Import Lib.Outcome Lib.Bytes Lib.Pack Model.Access Model.BasicReload Model.BasicSchemes Model.GateRequest Check.C12.
 Import ListNotations.
 Local Open Scope N_scope.
 `
@@ -2529,6 +2531,9 @@ func main() {
 			}
 		}
 	}
+
+	// ---------------- 10. whole requests: every method, arbitrary header maps (gate.go) ----------------
+	gateRequests(run, up, dir)
 
 	run.Finish(preamble, run.Scale(140, 700))
 }
